@@ -2010,7 +2010,7 @@ func (self *LockDB) Lock(serverProtocol ServerProtocol, command *protocol.LockCo
 	} else {
 		lockManager.glock.Lock()
 	}
-	if lockManager.lockKey != command.LockKey {
+	if lockManager.lockKey != command.LockKey || atomic.LoadUint32(&lockManager.refCount) == 0xffffffff {
 		lockManager.glock.Unlock()
 		return self.Lock(serverProtocol, command, lockPriorityLevel)
 	}
@@ -2330,7 +2330,7 @@ func (self *LockDB) UnLock(serverProtocol ServerProtocol, command *protocol.Lock
 	} else {
 		lockManager.glock.Lock()
 	}
-	if lockManager.lockKey != command.LockKey {
+	if lockManager.lockKey != command.LockKey || atomic.LoadUint32(&lockManager.refCount) == 0xffffffff {
 		lockManager.glock.Unlock()
 		return self.UnLock(serverProtocol, command, lockPriorityLevel)
 	}
